@@ -61,6 +61,17 @@ fn border_to_string<T>(b: &BorderHoriz<T>) -> (r: String) ensures sw(r@) == b.w,
 // A5/A2: a short string is narrower than 2^33 columns (each character is at most 2 columns wide)
 #[verifier::external_body]
 proof fn axiom_short_width(s: Seq<char>) requires short(s) ensures sw(s) <= 0x2_0000_0000 {}
+// fmt_links helpers (A3): TaggedLine::into_tagged_strings (strings only, in order), str::replace('\\n', " "), vec![x], to_owned
+#[verifier::external_body]
+fn line_tagged_strings<A>(l: TaggedLine<A>) -> (r: Vec<TaggedString<A>>)
+    ensures r@.len() <= 0x10_0000, forall|i: int| 0 <= i < r@.len() ==> short(#[trigger] r@[i].s@),   // A5: few, short strings per footnote line
+{ unimplemented!() }
+#[verifier::external_body]
+fn replace_newlines(s: &String) -> (r: String) ensures r@.len() == s@.len(), forall|i: int| 0 <= i < s@.len() ==> r@[i] == (if s@[i] == '\n' { ' ' } else { s@[i] }) { unimplemented!() }
+#[verifier::external_body]
+fn vec_one<A>(a: A) -> (r: Vec<A>) ensures r@ == seq![a] { unimplemented!() }
+#[verifier::external_body]
+fn string_to_owned(s: &String) -> (r: String) ensures r@ == s@ { unimplemented!() }
 spec fn all_ws(s: Seq<char>) -> bool;
 #[verifier::external_body]
 fn str_all_whitespace(s: &str) -> (r: bool) ensures r == all_ws(s@) { s.chars().all(char::is_whitespace) }
@@ -310,6 +321,8 @@ spec fn rl_ok<T>(l: RenderLine<T>, width: usize, allow: bool) -> bool {
 }
 // a line produced by a block of this renderer: at most the renderer's width, or one over-wide character
 spec fn short_line<T>(l: RenderLine<T>, w: usize) -> bool { match l { RenderLine::Text(t) => t.len <= w || t.len <= 2, RenderLine::Line(_) => false } }
+// C02 bounds the line width only "when width overflow has not been allowed (and link footnotes are left wrappable)"
+spec fn loose(o: RenderOptions) -> bool { o.allow_width_overflow || !o.wrap_links }
 spec fn lines_ok<T>(ls: Seq<RenderLine<T>>, width: usize, allow: bool) -> bool { forall|i: int| 0 <= i < ls.len() ==> rl_ok(#[trigger] ls[i], width, allow) }
 impl<D: TextDecorator> SubRenderer<D> {
     // representation invariant of a sub-renderer (C02 lives here: every finished line fits the renderer's width)
@@ -321,7 +334,7 @@ impl<D: TextDecorator> SubRenderer<D> {
         &&& 1 <= self.width <= 0x1000_0000_0000_0000
         &&& self.wrap_ok()
         &&& no_str(self.pending_frags@) && all_some(self.pending_frags@)
-        &&& lines_ok(self.lines@, self.width, self.options.allow_width_overflow)
+        &&& lines_ok(self.lines@, self.width, loose(self.options))
     }
     // A5 (boundary): accumulated widths are far from overflowing when a public operation starts
     spec fn wtotal(&self) -> int { match self.wrapping { Some(w) => w.total(), None => self.width as int } }
@@ -351,7 +364,7 @@ impl<D: TextDecorator> SubRenderer<D> {
             r.decorator == decorator, //@w
     {
         html_trace!("new({})", width);
-        proof { assert(lines_ok(Seq::<RenderLine<Vec<D::Annotation>>>::empty(), width, options.allow_width_overflow)); } //@w
+        proof { assert(lines_ok(Seq::<RenderLine<Vec<D::Annotation>>>::empty(), width, loose(options))); } //@w
         SubRenderer {
             width,
             options,
@@ -374,7 +387,7 @@ impl<D: TextDecorator> SubRenderer<D> {
     fn add_line(&mut self, line: RenderLine<Vec<D::Annotation>>)
         requires old(self).sr_inv(), tag_ok::<Vec<D::Annotation>>(), //@w
             // C02 at this level: a line handed to a renderer fits the renderer's width //@w
-            rl_ok(line, old(self).width, old(self).options.allow_width_overflow), //@w @C02 @C11 #added_line_fits
+            rl_ok(line, old(self).width, loose(old(self).options)), //@w @C02 @C11 #added_line_fits
             line matches RenderLine::Text(t) ==> t.len <= 0x4000_0000_0000_0000, //@w
         ensures //@w
             final(self).sr_inv(), //@w @C02 #add_line_inv
@@ -492,7 +505,7 @@ impl<D: TextDecorator> SubRenderer<D> {
             proof { //@w
                 let p = self.pending_frags@; //@w
                 assert(p.skip(p.len() - frags@.len()) =~= frags@); //@w
-                assert(lines_ok(self.lines@, self.width, self.options.allow_width_overflow)); //@w
+                assert(lines_ok(self.lines@, self.width, loose(self.options))); //@w
             } //@w
         }
         Ok(())
@@ -720,7 +733,7 @@ impl<D: TextDecorator> SubRenderer<D> {
         ensures //@w
             self.options.allow_width_overflow ==> r.is_ok(), //@w @C11 #into_lines_overflow_ok
             // every line a renderer hands over fits its width (C02) //@w
-            r matches Ok(ls) ==> lines_ok(ls@, self.width, self.options.allow_width_overflow), //@w @C02 #renderer_lines_fit
+            r matches Ok(ls) ==> lines_ok(ls@, self.width, loose(self.options)), //@w @C02 #renderer_lines_fit
             r matches Ok(ls) ==> ls@.len() >= self.lines@.len() && ls@.take(self.lines@.len() as int) =~= self.lines@, //@w @C03 #into_lines_keeps_lines
             r matches Ok(ls) ==> forall|i: int| self.lines@.len() <= i < ls@.len() ==> short_line(#[trigger] ls@[i], self.width), //@w @C02 @C11 #block_lines_fit_block
     { let mut this = self;
@@ -740,12 +753,12 @@ impl<D: TextDecorator> SubRenderer<D> {
 //@auto C01 C07 C02
     fn append_subrender(&mut self, other: Self, prefixes0: Prefixes) -> (r: Result<()>)
         requires old(self).sr_inv(), other.sr_inv(), tag_ok::<Vec<D::Annotation>>(), //@w
-            other.options.allow_width_overflow == old(self).options.allow_width_overflow, //@w
+            other.options == old(self).options, //@w
             // A5 (boundary): finished lines of the nested renderer are far from overflowing usize //@w
             forall|i: int| 0 <= i < other.lines@.len() ==> (match #[trigger] other.lines@[i] { RenderLine::Text(t) => t.len <= 0x2000_0000_0000_0000, RenderLine::Line(b) => b.w <= 0x2000_0000_0000_0000 }), //@w
             // boundary (A6, established by the width_minus contracts of unit RN): prefix + sub-renderer width fit the parent, //@w
             // unless overflow is allowed; A5: prefixes are short //@w
-            forall|k: int| k >= prefixes0.pos() ==> short(#[trigger] prefixes0.at(k)) && str_some(prefixes0.at(k)) && (sw(prefixes0.at(k)) + other.width <= old(self).width || old(self).options.allow_width_overflow), //@w
+            forall|k: int| k >= prefixes0.pos() ==> short(#[trigger] prefixes0.at(k)) && str_some(prefixes0.at(k)) && (sw(prefixes0.at(k)) + other.width <= old(self).width || loose(old(self).options)), //@w
         ensures //@w
             r.is_ok() ==> final(self).sr_inv(), //@w @C02 #append_keeps_lines_within_width
             final(self).same_stacks(old(self)) && final(self).same_config(old(self)), //@w @C09 #append_frame
@@ -768,18 +781,18 @@ impl<D: TextDecorator> SubRenderer<D> {
             invariant //@w
                 it.seq() == olines@, tag_ok::<Vec<D::Annotation>>(), self.sr_inv(), //@w
                 self.same_stacks(old(self)) && self.same_config(old(self)), tag@ == old(self).ann_stack@, //@w
-                lines_ok(olines@, other.width, other.options.allow_width_overflow), //@w
+                lines_ok(olines@, other.width, loose(other.options)), //@w
                 forall|i: int| 0 <= i < olines@.len() ==> (match #[trigger] olines@[i] { RenderLine::Text(t) => t.len <= 0x2000_0000_0000_0000, RenderLine::Line(b) => b.w <= 0x2000_0000_0000_0000 }), //@w
-                other.options.allow_width_overflow == self.options.allow_width_overflow, other.width <= 0x1000_0000_0000_0000, //@w
+                other.options == self.options, other.width <= 0x1000_0000_0000_0000, //@w
                 prefixes.pos() >= prefixes0.pos(), forall|k: int| prefixes.at(k) == prefixes0.at(k), //@w
-                forall|k: int| k >= prefixes0.pos() ==> short(#[trigger] prefixes0.at(k)) && str_some(prefixes0.at(k)) && (sw(prefixes0.at(k)) + other.width <= self.width || self.options.allow_width_overflow), //@w
+                forall|k: int| k >= prefixes0.pos() ==> short(#[trigger] prefixes0.at(k)) && str_some(prefixes0.at(k)) && (sw(prefixes0.at(k)) + other.width <= self.width || loose(self.options)), //@w
                 self.lines@.len() >= old(self).lines@.len() && self.lines@.take(old(self).lines@.len() as int) =~= old(self).lines@, //@w
         {
             let ghost pk = prefixes.pos(); //@w
             proof { //@w
-                assert(rl_ok(olines@[it.index@], other.width, other.options.allow_width_overflow)); //@w
+                assert(rl_ok(olines@[it.index@], other.width, loose(other.options))); //@w
                 assert(prefixes.at(pk) == prefixes0.at(pk)); //@w
-                assert(short(prefixes0.at(pk)) && str_some(prefixes0.at(pk)) && (sw(prefixes0.at(pk)) + other.width <= self.width || self.options.allow_width_overflow)); //@w
+                assert(short(prefixes0.at(pk)) && str_some(prefixes0.at(pk)) && (sw(prefixes0.at(pk)) + other.width <= self.width || loose(self.options))); //@w
                 axiom_short_width(prefixes0.at(pk)); //@w
             } //@w
             let prefix = prefixes.next_prefix();
@@ -815,6 +828,103 @@ impl<D: TextDecorator> SubRenderer<D> {
         }
 
         Ok(())
+    }
+//@end
+//@item src/render/text_renderer.rs :: impl SubRenderer :: fn fmt_links
+//@sub /fn fmt_links\(&mut self, mut links: Vec<TaggedLine<D::Annotation>>\)/ ==> fn fmt_links(&mut self, links: Vec<TaggedLine<D::Annotation>>)
+//@sub /for line in links\.drain\(\.\.\)/ ==> for line in itl: links
+//@sub /let mut pos = 0;/ ==> let mut pos: usize = 0;
+//@sub /for ts in line\.into_tagged_strings\(\)/ ==> let tss = line_tagged_strings(line);\n            for ts in its: tss
+//@sub /ts\.s\.replace\('\\n', " "\)/ ==> replace_newlines(&ts.s)
+//@sub /let tag = vec!\[ts\.tag\];/ ==> let tag = vec_one(ts.tag);
+//@sub /for c in s\.chars\(\)/ ==> for c in itc: s.chars()
+//@sub /s: s\.to_owned\(\),/ ==> s: string_to_owned(&s),
+//@sub /let mut wrapped_line = TaggedLine::new\(\);/ ==> let mut wrapped_line: TaggedLine<Vec<D::Annotation>> = TaggedLine::new();
+//@auto C01 C02 C08
+    fn fmt_links(&mut self, links: Vec<TaggedLine<D::Annotation>>)
+        requires old(self).sr_inv(), tag_ok::<Vec<D::Annotation>>(), //@w
+            // KNOWN FINDING D13: at width 1 a double-width character of a link target is emitted on a line of its own, two columns wide, //@w
+            // without width overflow having been allowed; verified for widths >= 2 //@w
+            old(self).width >= 2, //@w kf=D13 #footnote_width_at_least_2
+        ensures //@w
+            // the footnote list is hard-wrapped to the width (C02; when links are left wrappable): every added line keeps the renderer invariant //@w
+            final(self).sr_inv(), //@w @C02 #footnote_lines_fit
+            final(self).same_stacks(old(self)) && final(self).same_config(old(self)), //@w @C09
+            final(self).lines@.len() >= old(self).lines@.len() + links@.len() && final(self).lines@.take(old(self).lines@.len() as int) =~= old(self).lines@, //@w @C08 @C03 #one_or_more_lines_per_footnote
+    {
+        for line in itl: links
+            invariant //@w[
+                self.sr_inv(), tag_ok::<Vec<D::Annotation>>(), self.same_stacks(old(self)) && self.same_config(old(self)),
+                self.width >= 2, //@w kf=D13
+                self.lines@.len() >= old(self).lines@.len() + itl.index@ && itl.index@ >= 0 && self.lines@.take(old(self).lines@.len() as int) =~= old(self).lines@,
+            //@w]
+        {
+            /* Hard wrap */
+            let mut pos: usize = 0;
+            let mut wrapped_line: TaggedLine<Vec<D::Annotation>> = TaggedLine::new();
+            let tss = line_tagged_strings(line);
+            for ts in its: tss
+                invariant //@w[
+                    self.sr_inv(), tag_ok::<Vec<D::Annotation>>(), self.same_stacks(old(self)) && self.same_config(old(self)),
+                    its.seq() == tss@, tss@.len() <= 0x10_0000, forall|i: int| 0 <= i < tss@.len() ==> short(#[trigger] tss@[i].s@),
+                    self.width >= 2, //@w kf=D13
+                    wrapped_line.wf(), wrapped_line.len == pos, pos <= its.index@ * 0x2_0000_0000 + self.width,
+                    self.options.wrap_links ==> pos <= self.width,
+                    self.lines@.len() >= old(self).lines@.len() + itl.index@ && itl.index@ >= 0 && self.lines@.take(old(self).lines@.len() as int) =~= old(self).lines@,
+                //@w]
+            {
+                proof { assert(short(tss@[its.index@].s@)); } //@w
+                // FIXME: should we percent-escape?  This is probably
+                // an invalid URL to start with.
+                let s = replace_newlines(&ts.s);
+                let tag = vec_one(ts.tag);
+
+                let width = s.width();
+                proof { axiom_short_width(s@); } //@w
+                if self.options.wrap_links && pos + width > self.width {
+                    // split the string and start a new line
+                    let mut buf = String::new();
+                    let ghost pos_in = pos; //@w
+                    for c in itc: s.chars()
+                        invariant //@w[
+                            self.sr_inv(), tag_ok::<Vec<D::Annotation>>(), self.same_stacks(old(self)) && self.same_config(old(self)),
+                            wrapped_line.wf(), wrapped_line.len + sw(buf@) == pos, pos <= self.width, self.options.wrap_links,
+                            self.width >= 2, //@w kf=D13
+                            self.lines@.len() >= old(self).lines@.len() + itl.index@ && itl.index@ >= 0 && self.lines@.take(old(self).lines@.len() as int) =~= old(self).lines@,
+                        //@w]
+                    {
+                        let c_width = UnicodeWidthChar::width(c).unwrap_or(0);
+                        if pos + c_width > self.width {
+                            if !buf.is_empty() {
+                                wrapped_line.push_str(TaggedString {
+                                    s: buf,
+                                    tag: tag.clone(),
+                                });
+                                buf = String::new();
+                            }
+
+                            let ghost before = self.lines@; //@w
+                            self.add_line(RenderLine::Text(wrapped_line));
+                            proof { assert(self.lines@.drop_last() == before); assert(self.lines@ =~= before.push(self.lines@.last())); assert(before.push(self.lines@.last()).take(old(self).lines@.len() as int) =~= before.take(old(self).lines@.len() as int)); } //@w
+                            wrapped_line = TaggedLine::new();
+                            pos = 0;
+                        }
+                        pos += c_width;
+                        let ghost b0 = buf@; //@w
+                        buf.push(c);
+                        proof { lemma_sw_concat(b0, seq![c]); lemma_sw_one(c); assert(buf@ =~= b0 + seq![c]); lemma_sw_empty(); } //@w
+                    }
+                    wrapped_line.push_str(TaggedString { s: buf, tag });
+                } else {
+                    wrapped_line.push_str(TaggedString {
+                        s: string_to_owned(&s),
+                        tag,
+                    });
+                    pos += width;
+                }
+            }
+            self.add_line(RenderLine::Text(wrapped_line));
+        }
     }
 //@end
 //@item src/render/text_renderer.rs :: impl SubRenderer :: fn ws_mode
@@ -1387,11 +1497,11 @@ fn filter_text_strikeout(s: &str) -> (r: Option<String>)
     for c in it: s.chars()
         invariant result@ =~= strike(s@.take(it.index@)), //@w
     {
-        proof { //@w[
-            let k = it.index@;
-            assert(s@.take(k + 1).drop_last() =~= s@.take(k));
-            assert(s@.take(k + 1).last() == c);
-        } //@w]
+        proof { //@w
+            let k = it.index@; //@w
+            assert(s@.take(k + 1).drop_last() =~= s@.take(k)); //@w
+            assert(s@.take(k + 1).last() == c); //@w
+        } //@w
         result.push(c);
         if UnicodeWidthChar::width(c).unwrap_or(0) > 0 {
             // This is a character with width (not a combining or other character)
